@@ -22,7 +22,7 @@ RULE = (
 )
 ASSUMPTIONS = ["the global numpy RNG is seeded before the sub-sampled cross-validation path (it draws from numpy.random.random)"]
 TIMEOUT = {"quick": 400, "thorough": 2400}
-REQUIRED = {"post:__call__": 300, "post:cdf": 200, "cases:cv": 10, "cases:user_bandwidth": 60, "cases:wide_bandwidth": 5,
+REQUIRED = {"post:__call__": 300, "post:cdf": 200, "cases:cv": 10, "cases:user_bandwidth": 40, "cases:wide_bandwidth": 3,
             "edge_queries": 500, "affine_reruns": 60, "queries_with_truncation": 2000}
 
 PHI35 = 0.00023262907903552504  # Phi(-3.5)
